@@ -4,7 +4,7 @@
    the typed elements built from the blocks, KyGananciasSolares.txt and NewBDL_O.tbl are covered by
    the correspondence only. *)
 From Coq Require Import NArith Bool List String.
-From CTE Require Import Model.Bdl Model.BdlDoc Model.Kyg Proofs.BdlP Proofs.KygP.
+From CTE Require Import Model.Bdl Model.BdlDoc Model.Kyg Proofs.BdlP Proofs.BdlPreambleP Proofs.KygP.
 Import ListNotations.
 
 (* layout never matters: indentation, trailing blanks, CR before LF, blank lines, comment and LIDER
@@ -42,6 +42,17 @@ Proof. exact expected_from_fields. Qed.
 
 Theorem C18_numbers_typed : forall v, is_number v = true -> typed v = VNum v.
 Proof. exact typed_number. Qed.
+
+(* the loose attribute lines legacy LIDER files put before the general data block come back as the
+   attributes of a PARTELIDER block, followed by the blocks of the document *)
+Theorem C18_preamble_roundtrip : forall pre d pls,
+  pre <> [] -> forallb wf_attr pre = true -> wf_doc d = true ->
+  pls <> [] -> forallb wf_pline pls = true -> forallb not_removed (render pls) = true ->
+  contents pls = pre_lines pre ++ doc_lines d ->
+  first_marker lider_markers (join [nl] (pre_lines pre ++ doc_lines d)) =
+    Some (join [nl] (pre_lines pre) ++ [nl], join [nl] (doc_lines d)) ->
+  exists l, expected_from init_ps d = Some l /\ build_blocks (render pls) = Ok (partelider_block pre :: l).
+Proof. exact preamble_roundtrip. Qed.
 
 (* KyGananciasSolares.txt: a printed element line of either column layout, with either decimal
    separator in its numbers, is read back field by field (orientation O is handed out as W) *)
@@ -81,6 +92,16 @@ Example C18_example :
                    b_attrs b2 = [(s2l "MATERIAL", VStr (s2l "( ""a"",""b"",""c"")"))]
   | _ => False
   end.
+Proof. vm_compute. repeat split; reflexivity. Qed.
+Definition ex_pre : list aattr :=
+  [ mkAttr (s2l "CAMBIO") (s2l " ") (s2l " ") (AWord (s2l "SI"));
+    mkAttr (s2l "CONTRIBUCIONRESACS") (s2l "             ") (s2l "           ") (ANum (s2l "1800")) ].
+Definition ex_pdoc : list ablock :=
+  [ mkAB (s2l "DATOS GENERALES") (s2l " ") (s2l " ") (s2l "GENERAL-DATA") [ mkAttr (s2l "ENGLISH") (s2l " ") (s2l "  ") (AWord (s2l "NO")) ] ].
+Example C18_preamble_example :
+  forallb wf_attr ex_pre = true /\ wf_doc ex_pdoc = true /\
+  first_marker lider_markers (join [nl] (pre_lines ex_pre ++ doc_lines ex_pdoc)%list) =
+    Some ((join [nl] (pre_lines ex_pre) ++ [nl])%list, join [nl] (doc_lines ex_pdoc)).
 Proof. vm_compute. repeat split; reflexivity. Qed.
 Example C18_kyg_example :
   wf_kwin (mkKN (s2l "P02_E01_PE001_V") (s2l "2,00") (s2l "1.26") (s2l "SO") (s2l "10,00")
